@@ -1,5 +1,6 @@
 import VlsModel.Model.Enforcement
 import VlsModel.Gen.FnEnforce
+import VlsModel.Gen.FnSimpleState
 import VlsModel.Lemmas.FnGen
 import VlsModel.Lemmas.EnforcementFn
 /-
@@ -115,5 +116,45 @@ example : Validator.get_current_holder_commitment_info strict () (toES { slot :=
 example : Validator.get_current_holder_commitment_info strict () (toES { slot := .ready, next := 5, cur := some 7 }) 3
     = .error (.err "policy-other") := by rfl
 example : (signHolder { slot := .ready, next := 5, cur := some 7 } 4).out.signed = some 4 := by rfl
+
+/-! ### the state-dependent checks of `SimpleValidator::validate_holder_commitment_tx` (simple_validator.rs:833;
+mechanisms "refuses a new state once channel_closed" :896 and "refuses revoked numbers" :884), generated:
+`Gen/FnSimpleState.lean`.  The content rules `validate_commitment_tx` enter as the external `vct` (the model's
+`policyOk`), the HTLC deltas are only logged. -/
+
+/-- the model's `holderPolicy` IS the generated body (default filter): same reply class on every input in the 64-bit
+    range — content rules, retry-same (`expect` panic without a current commitment), already revoked, closed -/
+theorem C02_fn_validate_holder_commitment_tx
+    (dO dR : Nat → Nat → Unit × Unit)
+    (vct : Gen.FnSimpleState.EnforcementState Nat Nat → Nat → Nat → Unit → Gen.FnSimpleState.ChainState → Nat → Rs.M Unit)
+    (c : Chan) (n pt info : Nat) (pk : Bool) (t0 : String)
+    (hv : vct (toSV c) n pt () ⟨⟩ info = contentRules pk t0) (hn : n + 2 ≤ Rs.U64_MAX) :
+    holderPolicy c n info pk
+      = cls (Gen.FnSimpleState.SimpleValidator.validate_holder_commitment_tx dO dR vct strict ⟨⟩ (toSV c) n pt () ⟨⟩ info) := by
+  obtain ⟨slot, next, cur, nextInfo, closed, m, r, curPt, prevPt, curInfo, prevInfo, secrets⟩ := c
+  have hn1 : n + 1 ≤ Rs.U64_MAX := by omega
+  unfold Gen.FnSimpleState.SimpleValidator.validate_holder_commitment_tx holderPolicy
+  rw [hv]
+  simp only [toSV, contentRules]
+  cases pk
+  · simp
+  · simp only [if_true, Rs.bind_ok, Rs.uadd, hn, hn1, Rs.pure_eq, Bool.not_true, Bool.false_eq_true, if_false]
+    by_cases a : n + 1 = next
+    · subst a
+      have a2 : ¬ n + 2 ≤ n + 1 := by omega
+      have a3 : ¬ n = n + 1 := by omega
+      cases cur with
+      | none => simp [Rs.unwrap, Rs.panic]
+      | some i =>
+        by_cases b : info = i
+        · subst b; simp [Rs.unwrap, a2, a3]
+        · have b' : ¬ i = info := fun h => b h.symm
+          simp [Rs.unwrap, b, b', policyErr_strict]
+    · by_cases b : n + 2 ≤ next
+      · simp [a, b, policyErr_strict]
+      · by_cases d : n = next
+        · subst d
+          cases closed <;> simp [a, b, policyErr_strict]
+        · simp [a, b, d]
 
 end VlsModel.Props.C02Fn
